@@ -12,7 +12,7 @@ PID = "C20"
 LEVEL = "exploration"
 RULE = (
     "Day expressions (absolute notations, relative days, weekday forms, day of month, day+month; English and German) x clock strings (every notation of C06 at the enumerated clock times) x "
-    "arrangements {'D C', 'D at C', 'D um C', 'C D', 'C on D', 'C am D'} x reference times.  Cases whose stand-alone day is not a full date or whose stand-alone clock is not a time of day are skipped "
+    "arrangements {'D C', 'D at C', 'D um C', 'C D', 'C on D', 'C am D', 'at C D', 'um C D'} x reference times.  Cases whose stand-alone day is not a full date or whose stand-alone clock is not a time of day are skipped "
     "and counted (vacuity guard: evidence reports how many were judged).  Excluded as stated: a 12:xx clock directly followed by German 'am <day>'.  Non-trivial = every judged case; distinct = distinct (text, ts)."
 )
 ASSUMPTIONS = ["the meaning of each part alone is judged by C03-C06; this check only demands the homomorphism"]
@@ -23,7 +23,7 @@ DAYS = [
     "monday", "montag", "friday", "freitag", "sunday", "this friday", "next tuesday", "nächsten mittwoch", "friday next week", "thursday",
     "the 5th", "5th", "5.", "31.", "12.5.", "12. mai", "may 12", "12th of may", "29.2.", "december 31",
 ]
-ARR = [("D C", "{d} {c}"), ("D at C", "{d} at {c}"), ("D um C", "{d} um {c}"), ("C D", "{c} {d}"), ("C on D", "{c} on {d}"), ("C am D", "{c} am {d}")]
+ARR = [("D C", "{d} {c}"), ("D at C", "{d} at {c}"), ("D um C", "{d} um {c}"), ("C D", "{c} {d}"), ("C on D", "{c} on {d}"), ("C am D", "{c} am {d}"), ("at C D", "at {c} {d}"), ("um C D", "um {c} {d}")]
 
 
 def plan(tier, seed):
